@@ -17,7 +17,8 @@ TECHNIQUE = "bounded path enumeration with flag constant-propagation on a statem
 CLAIM = ("Decides: subset sends each reaction to exactly one list; along every path of split's grouping loop body the reaction index is "
          "placed exactly once and fusion merges both members before dropping a group; categorisation uses net = all_p - all_r with the "
          "right signs; upper bounds are min over element totals / atoms per molecule with totals = sum coeff*conc; per-substance helpers "
-         "follow self.substances order; participation/effect/equilibria/add use the right stoichiometry views.")
+         "follow self.substances order; participation/effect/equilibria/add use the right stoichiometry views."
+         ' Membership tests, verdicts and argument order of the structural queries; constructor substance-order arms (R5). Shared rule A1: no swapped same-named arguments at resolved in-package call sites.')
 DOES_NOT_DECIDE = "transitive fusion correctness on arbitrary graphs, decompose_yields numerics, that bounds hold for reachable states"
 ASSUMPTIONS = ["OrderedDict iteration order; numpy boolean reductions"]
 F1 = Fraction(1)
